@@ -238,6 +238,22 @@ pub fn run(ctx: &mut Ctx) {
             check_doc(acc, (ln, i), &d.1, &[DEFAULT], &[p], false, seed);
             acc.nontrivial(h64(&(&d.0, p)));
         });
+        // size thresholds: stretched inputs, pieces of 7 and 64 bytes and whole; single faults and consecutive triples at every refill index
+        let st = stretch("S.stretch", STRETCH_READER, t.pick(6, 24), t.pick(8, 11), t.pick(2, 4));
+        let max_len = t.pick(700, 4000);
+        let ln = ln + 1;
+        ctx.layer(&st.name, ln, st.total, st.desc.clone(), |i, acc| {
+            let mut input = Vec::new();
+            st.get(i, &mut input);
+            if input.len() > max_len {
+                acc.count("inputs_skipped_too_long", 1);
+                return;
+            }
+            // the number of faulty runs is quadratic in the number of refills: small pieces on short inputs only
+            let pieces: &[usize] = if input.len() <= 160 { &[7, 64, 0] } else { &[64, 0] };
+            check_doc(acc, (ln, i), &input, t.pick(&[DEFAULT][..], &[DEFAULT, NEUTRAL | TRIM_START | TRIM_END][..]), pieces, false, seed);
+            acc.nontrivial(h64(&input));
+        });
     }
 }
 
